@@ -89,6 +89,15 @@ int main() {}
         obs.append(Ob(id='C06.static.%s_%s_%d_%d' % (R1, R2, N, D), prop='C06', group='C06.static', prelude='', wrappers=[], inputs=[], body=src, kind='S',
                       contract='static fact: is_convertible<Quantity<Meters*%d/%d, %s>, Quantity<Meters, %s>> == %s (documented formula), and a dimension mismatch answers false without a hard error'
                                % (N, D, c1, c2, exp), functions_under_contract=('au::ConstructionPolicy::PermitImplicitFrom (compile-time)',)))
+    # k = 1 between integral reps: every ordered pair (the clause is independent of widths and signedness), one probe TU per source rep
+    for R1 in G.INT_REPS:
+        lines = ['VF_STATIC_FACT((std::is_convertible<au::Quantity<au::Meters, %s>, au::Quantity<au::Meters, %s>>::value) == true);   // %s -> %s' % (G.ctype(R1), G.ctype(R2), R1, R2)
+                 for R2 in G.INT_REPS]
+        lines += ['VF_STATIC_FACT((std::is_convertible<au::Quantity<au::Meters, %s>, au::Quantity<au::Meters, %s>>::value) == true);' % (G.ctype(R1), f) for f in ('float', 'double')]
+        src = '#include <type_traits>\n#include "au/au.hh"\n#include "au/units/meters.hh"\n#define VF_STATIC_FACT(c) static_assert(c, "VF_STATIC_FACT")\n' + '\n'.join(lines) + '\nint main() {}\n'
+        obs.append(Ob(id='C06.static.identity-from-%s' % R1, prop='C06', group='C06.static', prelude='', wrappers=[], inputs=[], body=src, kind='S',
+                      contract='static fact: Quantity<Meters, R2> is implicitly constructible from Quantity<Meters, %s> for every integral and floating R2 (k = 1 between integral reps)' % G.ctype(R1),
+                      functions_under_contract=('au::ConstructionPolicy::PermitImplicitFrom (compile-time)', 'au::detail::PermitAsCarveOutForIntegerPromotion')))
     w = Wrapper('w_threshold', 'int32_t', [], 'return au::detail::OVERFLOW_THRESHOLD;')
     obs.append(Ob(id='C06.threshold-constant', prop='C06', group='C06.canscale', prelude='#include "au/units/meters.hh"', wrappers=[w], inputs=[],
                   body='\n  CHECK(%s() == 2147, "overflow-threshold-is-2147");\n' % w.name, contract='au::detail::OVERFLOW_THRESHOLD == 2147',
